@@ -512,6 +512,16 @@ func runC20(c *explore.Ctx) {
 			}
 			s.Validated++
 			s.Nontrivial++
+			if err == nil {
+				// a destination that held another path before (decoders reuse what they are given)
+				for _, prev := range []ast.Path{{ast.PathName("old"), ast.PathIndex(9), ast.PathName("x"), ast.PathName("y"), ast.PathIndex(3), ast.PathName("z"), ast.PathName("w")}, {ast.PathName("o")}} {
+					dst := append(ast.Path{}, prev...)
+					if e2 := json.Unmarshal(b, &dst); e2 != nil || !samePath(dst, p) {
+						c.Report(s, explore.Violation{Key: "error/path-decode-into-used", Input: explore.J(c20Input{Entry: "path", Path: pathAny(p)}), Rendered: string(b), Detail: fmt.Sprintf("path %s decoded into a destination that held %v gives %v (%v)", b, prev, dst, e2)})
+						break
+					}
+				}
+			}
 			if err != nil || !samePath(back, p) {
 				c.Report(s, explore.Violation{Key: "error/path-roundtrip", Input: explore.J(c20Input{Entry: "path", Path: pathAny(p)}), Rendered: string(b), Detail: fmt.Sprintf("path %v encodes to %s and decodes to %v (%v)", p, b, back, err)})
 			}
